@@ -149,7 +149,8 @@ class Options:
         # super().__init__({k: v for k, v in locals().items() if not unprovided(v)})
 
         if no_data_loss:
-            if addition is None:
+            if addition is None or unprovided(addition):
+                # (not given: the parameter defaults to <unprovided>)
                 # ignore the input addition is not a "NO-LOSS" approach
                 # warnings.warn(f'')
                 addition = False
@@ -175,7 +176,8 @@ class Options:
             # force default implies ignore_required
             ignore_required = True
 
-        if not collect_errors:
+        if not collect_errors and not (unprovided(collect_errors) and getattr(self, "collect_errors", False)):
+            # (collect_errors may be turned on by the class attribute of an Options subclass)
             if max_errors:
                 warning_settings.warn(
                     f"Options with max_errors: {max_errors} should turn on collect_errors=True",
